@@ -125,6 +125,10 @@ def derive(kind, op, x):
         return svg.Path("M 20,20 L 21,22") + x
     if op == "addpath":            # segment + Path
         return x + svg.Path("L 30,31 L 32,30")
+    if op == "pathiadd":           # x (a path) is the right operand of Path += x
+        left = svg.Path("M 20,20 L 21,22")
+        left += x
+        return left
     if op == "subadd":             # the segment is the RIGHT operand of Subpath + segment
         return svg.Path("M 20,20 L 21,22 M 1,1 L 2,2").subpath(0) + x
     if op == "addsub":             # segment + Subpath
